@@ -234,12 +234,15 @@ func c02MakeSeeds(r *verifkit.Reporter) []*c02Seed {
 	type shape struct {
 		name                    string
 		ca, rich, highS, v2only bool
-		v1only                  bool
+		v1only, shortS          bool
 	}
 	shapes := []shape{
 		{name: "ca-plain", ca: true}, {name: "ca-rich", ca: true, rich: true},
 		{name: "host-plain"}, {name: "host-rich", rich: true}, {name: "host-highS", highS: true, rich: true},
 		{name: "host-longname-v6only", v2only: true}, {name: "host-emptyname", v1only: true},
+		// P-256 signatures whose low-S value has two or more leading zero bytes (about one signature in 32768): the shapes on
+		// which a re-encoding of s or n-s can go wrong; issued in low-S form and presented as the high-S twin
+		{name: "host-shortS", shortS: true}, {name: "host-shortS-highS", shortS: true, highS: true},
 	}
 	if verifkit.Thorough() {
 		shapes = append(shapes, shape{name: "host-rich-b", rich: true}, shape{name: "host-plain-b"}, shape{name: "ca-rich-b", ca: true, rich: true})
@@ -248,7 +251,7 @@ func c02MakeSeeds(r *verifkit.Reporter) []*c02Seed {
 	for _, ver := range []Version{Version1, Version2} {
 		for _, curve := range []Curve{Curve_CURVE25519, Curve_P256} {
 			for _, sh := range shapes {
-				if (sh.highS && curve != Curve_P256) || (sh.v2only && ver != Version2) || (sh.v1only && ver != Version1) {
+				if ((sh.highS || sh.shortS) && curve != Curve_P256) || (sh.v2only && ver != Version2) || (sh.v1only && ver != Version1) {
 					continue
 				}
 				caKey := c02NewKey(rng, curve)
@@ -296,6 +299,30 @@ func c02MakeSeeds(r *verifkit.Reporter) []*c02Seed {
 					}
 					if sh.v1only {
 						tbs.Name = ""
+					}
+					if sh.shortS {
+						// signatures are deterministic here: search over the certificate name instead
+						n := elliptic.P256().Params().N
+						found := false
+						for try := 0; try < 2_000_000 && !found; try++ {
+							tbs.Name = fmt.Sprintf("short-%d.example", try)
+							cand, err := tbs.SignWith(caCert, curve, signer)
+							if err != nil {
+								break
+							}
+							if _, sv, ok := c02ParseRS(cand.Signature()); ok {
+								low := new(big.Int).Set(sv)
+								if alt := new(big.Int).Sub(n, sv); alt.Cmp(low) < 0 {
+									low = alt
+								}
+								found = low.BitLen() <= 240
+							}
+						}
+						if !found {
+							fail("no certificate with a short-s signature found", nil)
+							continue
+						}
+						r.Count("seed_signatures_with_short_s", 1)
 					}
 					mem, err = tbs.SignWith(caCert, curve, signer)
 					if err != nil {
@@ -944,7 +971,9 @@ func c02Reencodings(s *c02Seed, form string) (names []string, outs [][]byte) {
 	var dbody cryptobyte.String
 	rd := rawDetails
 	if rd.ReadASN1(&dbody, TagCertDetails) {
-		withIn := func(extra []byte) []byte { return seq(elt(TagCertDetails, append(slices.Clone(dbody), extra...)), afterDetails) }
+		withIn := func(extra []byte) []byte {
+			return seq(elt(TagCertDetails, append(slices.Clone(dbody), extra...)), afterDetails)
+		}
 		add("v2-unknown-field-in-details", withIn(elt(cbasn1.Tag(8).ContextSpecific(), []byte{1})))
 		add("v2-second-issuer-in-details", withIn(elt(TagDetailsIssuer, make([]byte, 32))))
 		add("v2-details-long-form-length", seq(append([]byte{byte(TagCertDetails), 0x82, byte(len(dbody) >> 8), byte(len(dbody))}, dbody...), afterDetails))
